@@ -37,6 +37,12 @@ inline void random_procenv(Rng &rng, RunCfg &c) {
   if (rng.below(10) == 0) { static const int sg[] = {SIGINT, SIGTERM, SIGUSR1, SIGUSR2}; for (int s : sg) if (rng.below(2)) c.inherit_mask |= 1ull << s; }
 }
 
+// the data as the second FILE operand; for compression the operand may still be growing while it is read (seeded change C04-4)
+inline void as_second_operand(Rng &rng, RunCfg &c, size_t data_size, bool compress) {
+  c.operand2 = true;
+  if (compress && data_size > 1 && rng.below(3) == 0) { c.op2_visible = (int64_t)rng.below(data_size); c.op2_grow_at = (int)rng.below(4); }
+}
+
 // compression run configuration
 inline RunCfg compress_cfg(Rng &rng, int level, bool seq, int W, bool vary_io) {
   RunCfg c;
